@@ -3700,7 +3700,15 @@ namespace detail {
                                 break;
                             case ')':
                             {
-                                state_stack.pop_back();
+                                if (state_stack.size() > 1) 
+                                {
+                                    state_stack.pop_back();
+                                }
+                                else // a ')' without a '(' to close
+                                {
+                                    ec = jmespath_errc::unbalanced_parentheses;
+                                    return jmespath_expression{};
+                                }
                                 break;
                             }
                             default:
